@@ -38,6 +38,8 @@ NodeMap(kind, delivered, parentMap) ==
   CASE kind = "skip"    -> <<>>                         \* SkipNode.ns_map = {}
     [] kind = "wrapper" -> IF WrapperPolicy = "parent" THEN parentMap ELSE delivered
     \* an element INSIDE a union-typed field: the node on the queue is still the union node
+    \* "wildModel": an element captured by a wildcard and bound to a class known by its qualified name keeps, like any
+    \* element node, the map delivered for it (OTHER)
     [] kind = "unionChild" -> IF UnionPolicy = "root" THEN parentMap ELSE delivered
     [] OTHER            -> delivered
 
